@@ -400,8 +400,10 @@ class Run:
         if not out.startswith("OPENED") or "UAF" in out:
             self.problem("read", what="opening a scan failed or touched freed memory", impl=out, model=m)
             return
-        if m != "O .":
-            self.problem("corr", what="model: open differs", impl=out, model=m)
+        if m != "O . wf=1 eq=1":
+            # wf=0: the hypotheses of C07_cursor_keeps_scan_open_contents (scan_wfb, fuel) fail in this state;
+            # eq=0: the composed specification differs from the contents-based one
+            self.problem("corr", what="model: open differs, or the stability theorem's hypotheses do not hold here", impl=out, model=m)
         self.note("other_cursor")
         self.cursors[cid] = {"ref": RefCursor(self.spec, parse_bound(lo), parse_bound(hi)), "since": set(), "dead": False,
                              "files": set(n for lv in self.levels for n in lv), "mem_live": True, "lo": lo, "hi": hi}
